@@ -493,6 +493,12 @@ fn find_in_items<'a>(src: &str, items: &'a [syn::Item], path: &[String], ctx: &s
             for ii in &im.items {
                 if let syn::ImplItem::Fn(f) = ii {
                     if f.sig.ident == want {
+                        if path.len() > 2 {
+                            // items nested in the method body
+                            let items: Vec<syn::Item> = f.block.stmts.iter().filter_map(|s| if let syn::Stmt::Item(i) = s { Some(i.clone()) } else { None }).collect();
+                            let items: &'a [syn::Item] = Box::leak(items.into_boxed_slice());
+                            return find_in_items(src, items, &path[2..], ctx);
+                        }
                         return Found::ImplFn(im, f);
                     }
                 }
@@ -500,6 +506,9 @@ fn find_in_items<'a>(src: &str, items: &'a [syn::Item], path: &[String], ctx: &s
             undecided(&format!("{ctx}: lost item `{}` in `{}`", path[1], path[0]))
         }
         syn::Item::Trait(tr) => {
+            if path.len() > 2 {
+                undecided(&format!("{ctx}: nothing can follow a trait method in a path"));
+            }
             let want = path[1].strip_prefix("fn ").unwrap_or_else(|| undecided(&format!("{ctx}: only `fn` can follow `trait` in a path")));
             for ii in &tr.items {
                 if let syn::TraitItem::Fn(f) = ii {
@@ -885,6 +894,13 @@ impl<'a> Gen<'a> {
         }
     }
 
+    fn const_rules(&mut self, e: &syn::Expr, scan: &Scan, spec: &FnSpec) {
+        // wrap the expression in a block so the same visitor applies
+        let stmt = syn::Stmt::Expr(e.clone(), None);
+        let blk = syn::Block { brace_token: Default::default(), stmts: vec![stmt] };
+        self.body_rules(&blk, scan, spec);
+    }
+
     fn body_rules(&mut self, block: &syn::Block, scan: &Scan, spec: &FnSpec) {
         struct V<'g, 'a, 's> {
             g: &'g mut Gen<'a>,
@@ -893,7 +909,14 @@ impl<'a> Gen<'a> {
         }
         impl<'g, 'a, 's, 'ast> Visit<'ast> for V<'g, 'a, 's> {
             fn visit_stmt(&mut self, s: &'ast syn::Stmt) {
-                if let syn::Stmt::Item(_) = s {
+                if let syn::Stmt::Item(it) = s {
+                    // nested items are addressed by their own path, except that the value-preserving
+                    // literal rewrite R13 also applies to nested consts
+                    if let syn::Item::Const(c) = it {
+                        if self.g.rules.contains("R13") {
+                            self.visit_expr(&c.expr);
+                        }
+                    }
                     return;
                 }
                 if let syn::Stmt::Macro(m) = s {
@@ -1129,6 +1152,13 @@ fn main() {
                                 func_label = format!("const {}", s.ident);
                                 g.strip_attrs(&s.attrs);
                                 g.make_pub(&s.vis, br(s.const_token.span()).start);
+                                if g.rules.contains("R13") {
+                                    let blk: syn::Block = syn::Block { brace_token: Default::default(), stmts: vec![] };
+                                    let scan = Scan { nodes: vec![], stmts: vec![], fn_block: 0..0 };
+                                    let spec = FnSpec::default();
+                                    let _ = &blk;
+                                    g.const_rules(&s.expr, &scan, &spec);
+                                }
                             }
                             syn::Item::Static(s) => {
                                 region = region_start(&s.attrs, whole.clone())..whole.end;
